@@ -78,6 +78,22 @@ func (p *vfFakeProc) die() {
 	})
 }
 
+// vfDieAfterReader lets the fake server process die as soon as its start response has been read completely.
+type vfDieAfterReader struct {
+	r    io.Reader
+	left int
+	proc *vfFakeProc
+}
+
+func (d *vfDieAfterReader) Read(p []byte) (int, error) {
+	n, err := d.r.Read(p)
+	d.left -= n
+	if d.left <= 0 {
+		d.proc.die()
+	}
+	return n, err
+}
+
 type vfFakeStdin struct {
 	buf      bytes.Buffer
 	writeErr error
@@ -250,7 +266,12 @@ func vfC11Check(c vfC11Case) error {
 		if c.ServerFault == "start-error" {
 			return nil, errors.New("verif: no such server")
 		}
-		return &process{processController: proc, stdin: stdin, stdout: bytes.NewReader(stdout), stderr: strings.NewReader(stderrText)}, nil
+		var out io.Reader = bytes.NewReader(stdout)
+		if c.ServerFault == "die" && c.FaultAt%(c.N+1) == 0 {
+			// the server answers the start request and dies before the first case is sent
+			out = &vfDieAfterReader{r: out, left: len(stdout), proc: proc}
+		}
+		return &process{processController: proc, stdin: stdin, stdout: out, stderr: strings.NewReader(stderrText)}, nil
 	})
 	results := newResults(c.N, &testTrie{}, &testTrie{}, nil)
 	logP, errP := &vfC11Printer{}, &vfC11Printer{}
@@ -317,6 +338,15 @@ func vfC11Check(c vfC11Case) error {
 			}
 		}
 	} else {
+		if c.ServerFault == "die" {
+			// the server is gone (and the runner has been told so) once k requests have been handed over:
+			// every later case is affected and must be a setup error, never a pass or an ordinary failure
+			for i := c.FaultAt % (c.N + 1); i < c.N; i++ {
+				if o := results.outcomes[vfC11Name(i)]; o.actualFailure == nil || !o.setupError {
+					return verifkit.Violf("after-death-not-setup-error", "server died after %d of %d requests but case %d is recorded as setupError=%v failure=%v (handed to the client: %v)", c.FaultAt%(c.N+1), c.N, i, o.setupError, o.actualFailure, sent[vfC11Name(i)])
+				}
+			}
+		}
 		for i := 0; i < c.N; i++ {
 			o := results.outcomes[vfC11Name(i)]
 			name := vfC11Name(i)
